@@ -100,7 +100,8 @@ func (mbp *multipartBodyProcessor) ProcessRequest(reader io.Reader, v plugintype
 			}
 			totalSize += size
 			filesCol.Add("", filename)
-			fileSizesCol.SetIndex(filename, 0, fmt.Sprintf("%d", size))
+			// one entry per uploaded file: two files may carry the same file name
+			fileSizesCol.Add(filename, fmt.Sprintf("%d", size))
 			filesNamesCol.Add("", p.FormName())
 			filesCombinedSizeCol.(*collections.Single).Set(fmt.Sprintf("%d", totalSize))
 			if seenUnexpectedEOF {
